@@ -14,6 +14,8 @@ edges    the same 25 x 31 transition relation, one transition per execution (so
          renamed axes and several cubic meshes.  The 25 start states are reached
          by the shortest generator words found by an integer BFS in the harness;
          unit ``group`` shows on the real objects that these are all states.
+quarter_default_n  one quarter turn with the default target resolution on cubic lattices with non-representable
+         cell sizes (5e-9, 0.1, 0.3, 1/3 ...), offsets and up to 25 cells per axis: must coincide with rotate90.
 interp   one non-lattice rotation (axis x angle x input form x target n) on
          meshes that have interior cells: bounding box, independent trilinear
          reference rotated by Q, zero fill outside, uniform -> Q v, linear
@@ -617,6 +619,37 @@ def unit_edges(ctx):
 
 
 # ---------------------------------------------------------------------------
+# single quarter turns with the DEFAULT target resolution on many cubic lattices
+
+QCELLS = [1.0, 5e-9, 1e-9, 0.1, 0.3, 0.7, 1.0 / 3.0]
+QNS = [(3, 11, 25), (7, 2, 13), (4, 3, 2), (25, 3, 11), (10, 10, 1)]
+QOFFS = [(0.0, 0.0, 0.0), (-4.0, 11.0, -8.0), (0.3, -7.7, 123.0)]  # in cells
+
+
+def unit_quarter_default_n(ctx):
+    """'for cubic cells a quarter turn about a coordinate axis coincides with the lattice rotation': cell sizes that
+    are not representable in binary, regions away from the origin, cell counts up to 25 - the default target
+    resolution must come out as the permuted n exactly (an edge/cell ratio of k - 1e-15 is still k cells)."""
+    quick = ctx.tier == "quick"
+    c = ctx.choose("cell", QCELLS)
+    n = ctx.choose("n", QNS[:3] if quick else QNS)
+    off = ctx.choose("offset-in-cells", QOFFS)
+    a = ctx.choose("about", ["x", "y", "z"])
+    sgn = ctx.choose("sense", [1, -1])
+    form = ctx.choose("form", ["matrix"] if quick else ["matrix", "rotvec"])
+    pmin = tuple(o * c for o in off)
+    mesh = make_mesh((pmin, (c, c, c), n, XYZ))
+    f, comp_axis = make_field(mesh, "s-tracer", (0, 1, 2), ctx.seed)
+    o = Orig(f, comp_axis)
+    rot = df.FieldRotator(f)
+    ev = ("rot", a, sgn, form)
+    ctx.step(1, _hist_str((ev,)))
+    _apply_event(rot, ev)
+    ctx.observe(tuple(int(k) for k in rot.field.mesh.n))
+    _transition_oracle(ctx, f, o, rot, (ev,), ctx.key(), heavy=True)
+
+
+# ---------------------------------------------------------------------------
 # non-lattice rotations
 
 INTERP_MESHES = {
@@ -891,18 +924,33 @@ def unit_accept(ctx):
 def unit_aborted(ctx):
     """a rotate() call that raises (bad target n, unknown method, malformed rotation) - the statement says nothing about
     such calls themselves, but the NEXT rotation must not depend on them (sequences compose from the original field)."""
-    bad = ctx.choose("bad-call", ["n-zero", "n-negative", "unknown-method", "malformed-quat"])
+    bad = ctx.choose("bad-call", ["n-zero", "n-negative", "unknown-method", "malformed-quat", "n-float", "n-wrong-length",
+                                  "n-string", "n-none-entries"])
     kind = ctx.choose("field", ["s-tracer", "v-tracer"])
+    prior = ctx.choose("accepted-before", [None, ("y", 1), ("z", -1)])
     mesh = make_mesh(LATTICE_MESHES["n432-c1"])
     f, comp_axis = make_field(mesh, kind, (0, 1, 2), ctx.seed)
     o = Orig(f, comp_axis)
     rot = df.FieldRotator(f)
+    M0 = np.eye(3, dtype=int)
+    if prior is not None:
+        ctx.step(1)
+        do_rotate(rot, _quarter_args(prior[0], prior[1], "matrix"))
+        M0 = GENS[prior]
     zq = _quarter_args("z", 1, "euler")
     ctx.step(1)
     if bad == "n-zero":
         r, e = C.raises(do_rotate, rot, zq, (0, 3, 2))
     elif bad == "n-negative":
         r, e = C.raises(do_rotate, rot, zq, (4, -3, 2))
+    elif bad == "n-float":
+        r, e = C.raises(do_rotate, rot, zq, (3.0, 4.0, 2.0))
+    elif bad == "n-wrong-length":
+        r, e = C.raises(do_rotate, rot, zq, (3, 4))
+    elif bad == "n-string":
+        r, e = C.raises(do_rotate, rot, zq, "342")
+    elif bad == "n-none-entries":
+        r, e = C.raises(do_rotate, rot, zq, (None, 4, 2))
     elif bad == "unknown-method":
         r, e = C.raises(rot.rotate, "from_nothing", [0, 0, 1])
     else:
@@ -912,11 +960,11 @@ def unit_aborted(ctx):
         ctx.note("bad-call-accepted:" + bad)
         return
     ctx.check()
-    if C.field_snap(rot.field) != o.snap:
+    if prior is None and C.field_snap(rot.field) != o.snap:
         ctx.note("aborted-rotate-changed-field:" + bad)
     ctx.step(1)
     do_rotate(rot, _quarter_args("x", 1, "matrix"))
-    p1, p2, n, arr = lattice_expect(o, GENS[("x", 1)])
+    p1, p2, n, arr = lattice_expect(o, GENS[("x", 1)] @ M0)
     ctx.check()
     same = tuple(int(k) for k in rot.field.mesh.n) == n and np.abs(np.asarray(rot.field.array, float) - arr).max() <= TOL * o.vmax
     ctx.note(("next-rotation-unaffected:" if same else "next-rotation-composed-with-the-aborted-one:") + bad)
@@ -925,7 +973,7 @@ def unit_aborted(ctx):
     if not same:
         ctx.fail("FieldRotator.rotate/refused-call-takes-part-in-later-rotations",
                  f"after a refused rotate ({bad}) a quarter turn about x gives n={tuple(int(k) for k in rot.field.mesh.n)}, "
-                 f"a fresh rotator gives n={n}", instance=f"bad={bad};field={kind}")
+                 f"the accepted rotations alone give n={n}", instance=f"bad={bad};field={kind};before={prior}")
     if C.field_snap(rot.field) is None:
         pass
 
@@ -934,6 +982,7 @@ def units(tier):
     return [
         {"name": "group", "fn": unit_group, "bound": None},
         {"name": "edges", "fn": unit_edges, "bound": None},
+        {"name": "quarter_default_n", "fn": unit_quarter_default_n, "bound": None},
         {"name": "interp", "fn": unit_interp, "bound": None},
         {"name": "seq", "fn": unit_seq, "bound": None},
         {"name": "refuse", "fn": unit_refuse, "bound": None},
